@@ -32,7 +32,8 @@ Lemma fp_input_normal k : wf_pub k ->
 Proof.
   intros H. unfold fp_input. cbv zeta. rewrite material_prefix by assumption.
   unfold pub_packet_body. rewrite key_body_split. unfold keymaterial_bytes, pubkey_pkt.
-  cbn [k_mat k_sec k_created k_alg]. rewrite app_nil_r. rewrite <- !app_assoc. reflexivity.
+  cbn [k_mat k_sec k_created k_alg]. rewrite app_nil_r. destruct H as [_ [_ Hm]]. rewrite (pub_mat_wf _ Hm).
+  rewrite <- !app_assoc. reflexivity.
 Qed.
 
 Theorem fp_eq_rfc k : wf_pub k -> 6 + publen k < 65536 ->
@@ -75,7 +76,8 @@ Lemma apply_op_public k o : wf_pub k -> parse_consistent k ->
 Proof.
   intros H Hc. destruct o; cbn [apply_op]; cbv zeta;
     try (unfold map_sec, pubkey_pkt; cbn [k_created k_alg k_mat]; auto).
-  rewrite reparse_fields by assumption. auto.
+  - destruct H as [_ [_ Hm]]. rewrite (pub_mat_wf _ Hm). auto.
+  - rewrite reparse_fields by assumption. auto.
 Qed.
 
 Lemma fold_ops_public ops : forall k, wf_pub k -> parse_consistent k ->
@@ -144,28 +146,86 @@ Qed.
 
 End FP.
 
-(* ---------- outside the premises ---------- *)
-(* 1. material the code has no class for (algorithm ids 0 and 21): publen is 0, only six octets are hashed.
-      With the identity function in place of SHA-1 the two sides are visibly different strings. *)
-Definition opaque_witness : keypkt :=
-  {| k_sub := false; k_created := 1000; k_alg := 21; k_mat := POpaque [0; 9; 1; 255]; k_sec := None |}.
-Theorem fp_opaque_refuted :
-  fingerprint (fun x => x) opaque_witness <> rfc_fingerprint (fun x => x) (pub_packet_body opaque_witness).
-Proof. vm_compute. discriminate. Qed.
-(* what the code hashes instead: 0x99, 00 06, and the six fixed octets only *)
-Theorem fp_opaque_characterised c a d s sub :
-  0 <= c < 4294967296 -> 0 <= a < 256 ->
+(* ---------- material the code has no class for (algorithm ids 0 and 21: OpaquePubKey / OpaquePrivKey) ---------- *)
+Definition opaque_pub (sub : bool) (c a : Z) (d : bytes) : keypkt :=
+  {| k_sub := sub; k_created := c; k_alg := a; k_mat := POpaque d; k_sec := None |}.
+Definition opaque_sec (sub : bool) (c a : Z) (d : bytes) (sp : secpart) : keypkt :=
+  {| k_sub := sub; k_created := c; k_alg := a; k_mat := POpaque d; k_sec := Some sp |}.
+
+Lemma opaque_fp_input sub c a d s : 0 <= c < 4294967296 -> 0 <= a < 256 -> 6 + Z.of_nat (length d) < 65536 ->
   fp_input {| k_sub := sub; k_created := c; k_alg := a; k_mat := POpaque d; k_sec := s |}
+  = [153] ++ be 2 (6 + Z.of_nat (length d)) ++ [4] ++ be 4 c ++ [a] ++ d.
+Proof.
+  intros Hc Ha Hb. unfold fp_input, publen, keymaterial_bytes. cbn [k_mat pubmat_len pubmat_bytes k_created k_alg k_sec].
+  rewrite Nat2Z.id. rewrite firstn_app_exact by reflexivity.
+  rewrite int_to_bytes_octet by assumption.
+  rewrite (int_to_bytes_fits c 4) by (change (256 ^ 4) with 4294967296; lia).
+  rewrite int_to_bytes_fits by (change (256 ^ 2) with 65536; lia).
+  change (Z.to_nat 2) with 2%nat. change (Z.to_nat 4) with 4%nat. rewrite be2_first_last. rewrite <- !app_assoc. reflexivity.
+Qed.
+
+Section Opaque.
+Variable sha1 : bytes -> bytes.
+(* after repair e03112d: a PUBLIC key of an unknown algorithm gets the RFC fingerprint of its emitted body *)
+Theorem fp_opaque_public_eq_rfc sub c a d : 0 <= c < 4294967296 -> 0 <= a < 256 -> 6 + Z.of_nat (length d) < 65536 ->
+  fingerprint sha1 (opaque_pub sub c a d) = rfc_fingerprint sha1 (key_body (opaque_pub sub c a d)) /\
+  key_body (opaque_pub sub c a d) = rfc_pub_body c a (POpaque d).
+Proof.
+  intros Hc Ha Hb.
+  assert (E : key_body (opaque_pub sub c a d) = rfc_pub_body c a (POpaque d)).
+  { unfold key_body, opaque_pub, keymaterial_bytes, rfc_pub_body. cbn [k_created k_alg k_mat k_sec pubmat_bytes rfc_material].
+    rewrite int_to_bytes_octet by assumption.
+    rewrite (int_to_bytes_fits c 4) by (change (256 ^ 4) with 4294967296; lia).
+    rewrite app_nil_r. reflexivity. }
+  split; [|exact E]. unfold fingerprint, rfc_fingerprint, opaque_pub. f_equal. rewrite opaque_fp_input by assumption.
+  fold (opaque_pub sub c a d). rewrite E. unfold rfc_pub_body. cbn [rfc_material].
+  rewrite !app_length, length_be. cbn [length]. f_equal. f_equal. f_equal. lia.
+Qed.
+End Opaque.
+
+(* the code before the repair hashed six octets only: refuted against the RFC value (identity in place of SHA-1) ... *)
+Definition opaque_witness : keypkt := opaque_pub false 1000 21 [0; 9; 1; 255].
+Theorem fp_opaque_prefix_refuted :
+  fingerprint_prefix (fun x => x) opaque_witness <> rfc_fingerprint (fun x => x) (key_body opaque_witness).
+Proof. vm_compute. discriminate. Qed.
+Theorem fp_opaque_prefix_characterised c a d s sub :
+  0 <= c < 4294967296 -> 0 <= a < 256 ->
+  fp_input_prefix {| k_sub := sub; k_created := c; k_alg := a; k_mat := POpaque d; k_sec := s |}
   = [153; 0; 6; 4] ++ be 4 c ++ [a].
 Proof.
-  intros Hc Ha. unfold fp_input, publen. cbn [k_mat pubmat_len k_created k_alg].
+  intros Hc Ha. unfold fp_input_prefix. cbn [k_mat pubmat_len_prefix k_created k_alg].
   change (Z.to_nat 0) with 0%nat. cbn [firstn]. rewrite app_nil_r.
   rewrite int_to_bytes_octet by assumption.
   rewrite (int_to_bytes_fits c 4) by (change (256 ^ 4) with 4294967296; lia).
   reflexivity.
 Qed.
+(* ... and the repaired code is the same function on every supported algorithm *)
+Theorem fp_prefix_same_supported k : wf_pubmat (k_mat k) -> fp_input_prefix k = fp_input k.
+Proof.
+  intros H. unfold fp_input_prefix, fp_input, publen.
+  replace (pubmat_len_prefix (k_mat k)) with (pubmat_len (k_mat k)); [reflexivity|].
+  destruct (k_mat k); try reflexivity. contradiction.
+Qed.
 
-(* 2. the bound 6 + publen < 65536 is needed: above it the code hashes the first and the last of THREE
+(* a PRIVATE key of an unknown algorithm still differs: `data` is the whole stored material (the boundary between
+   public and secret part is unknown), all of it is hashed, and PrivKeyV4.pubkey() yields an EMPTY twin *)
+Theorem fp_opaque_private_characterised sub c a d sp :
+  0 <= c < 4294967296 -> 0 <= a < 256 -> 6 + Z.of_nat (length d) < 65536 ->
+  fp_input (opaque_sec sub c a d sp) = [153] ++ be 2 (6 + Z.of_nat (length d)) ++ [4] ++ be 4 c ++ [a] ++ d /\
+  fp_input (pubkey_pkt (opaque_sec sub c a d sp)) = [153; 0; 6; 4] ++ be 4 c ++ [a].
+Proof.
+  intros Hc Ha Hb. split; [apply opaque_fp_input; assumption|].
+  unfold pubkey_pkt, opaque_sec. cbn [k_sub k_created k_alg k_mat pub_mat].
+  rewrite opaque_fp_input by (cbn [length]; lia). cbn [length]. reflexivity.
+Qed.
+Definition opaque_sec_witness : keypkt :=
+  opaque_sec false 1000 21 [0; 9; 1; 255; 0; 0; 7; 99] {| s_usage := 0; s_s2k := []; s_enc := []; s_priv := []; s_chk := [] |}.
+Theorem fp_opaque_private_refuted :
+  fingerprint (fun x => x) opaque_sec_witness <> fingerprint (fun x => x) (pubkey_pkt opaque_sec_witness) /\
+  key_body opaque_sec_witness <> [4] ++ be 4 1000 ++ [21] ++ [0; 9; 1; 255; 0; 0; 7; 99].
+Proof. split; vm_compute; discriminate. Qed.
+
+(* the bound 6 + publen < 65536 is needed: above it the code hashes the first and the last of THREE
       length octets (RFC 4880 cannot represent such a key at all: the fingerprint length field has two octets) *)
 Lemma big_prefix_differs v : 65536 <= v < 16777216 ->
   firstn 1 (int_to_bytes v 2) ++ lastn 1 (int_to_bytes v 2) = [v / 65536; v mod 256].
